@@ -3,6 +3,7 @@
 package generator
 
 import (
+	"reflect"
 	"sort"
 	"strings"
 
@@ -51,8 +52,19 @@ func vAddOp(sw *spec.Swagger, method, path string, op *spec.Operation) {
 
 // one security requirement list out of a small catalogue; nil means "not specified"
 func vSecurityChoice(tag string, allowNil bool) ([]map[string][]string, bool) {
-	n := 9
-	k := vChoice(tag, n)
+	r, ok, _ := vSecurityPick(tag, allowNil)
+	return r, ok
+}
+
+// vSecurityPick also returns the index chosen, so that an independent copy can be built with vSecurityOf
+func vSecurityPick(tag string, allowNil bool) ([]map[string][]string, bool, int) {
+	k := vChoice(tag, 10)
+	r, ok := vSecurityOf(k, allowNil)
+	return r, ok, k
+}
+
+// a fresh value on every call: nothing is shared with what was put into the spec
+func vSecurityOf(k int, allowNil bool) ([]map[string][]string, bool) {
 	switch k {
 	case 0:
 		if allowNil {
@@ -71,6 +83,8 @@ func vSecurityChoice(tag string, allowNil bool) ([]map[string][]string, bool) {
 		return []map[string][]string{{"key": {}, "oauth": {"read", "write"}}}, true // same schemes as 3, more scopes
 	case 8:
 		return []map[string][]string{{"basic": {}, "key": {}}, {"oauth": {"read"}}}, true // same shape as the default case, fewer scopes
+	case 9:
+		return []map[string][]string{{"oauth": {"admin", "read"}}}, true // a scope the definition does not declare, sorting first
 	case 6:
 		return []map[string][]string{{"ghost": {}}}, true // names a scheme that is not declared: must fail closed
 	default:
@@ -86,17 +100,18 @@ func VerifC06Security() {
 	oa := spec.OAuth2AccessToken("http://a", "http://t")
 	oa.Scopes = map[string]string{"read": "r", "write": "w"}
 	sw.SecurityDefinitions = spec.SecurityDefinitions{"key": spec.APIKeyAuth("X-Key", "header"), "basic": spec.BasicAuth(), "oauth": oa}
-	global, _ := vSecurityChoice("global", true)
+	global, _, gk := vSecurityPick("global", true)
 	sw.Security = global
 	type opIn struct {
 		id        string
 		own       []map[string][]string
 		specified bool
+		k         int
 	}
 	var ops []opIn
 	n := vParam("ops")
 	for i := 0; i < n; i++ {
-		own, specified := vSecurityChoice("op", true)
+		own, specified, ok := vSecurityPick("op", true)
 		id := []string{"opA", "opB"}[i]
 		op := &spec.Operation{}
 		op.ID = id
@@ -105,7 +120,7 @@ func VerifC06Security() {
 			op.Security = own
 		}
 		vAddOp(sw, []string{"GET", "DELETE"}[i], "/thing", op)
-		ops = append(ops, opIn{id, own, specified})
+		ops = append(ops, opIn{id, own, specified, ok})
 	}
 	app, err := vPlanApp(sw)
 	vAssert(err == nil, "makeCodegenApp failed")
@@ -113,6 +128,15 @@ func VerifC06Security() {
 		return
 	}
 	vCover("planned")
+	// planning must leave the requirements of the document alone: the server evaluates them at run time from the embedded spec
+	wantGlobal, _ := vSecurityOf(gk, true)
+	vAssert(reflect.DeepEqual(sw.Security, wantGlobal), "planning rewrote the global security requirements of the spec document")
+	for _, in := range ops {
+		wantOwn, _ := vSecurityOf(in.k, true)
+		if in.specified {
+			vAssert(reflect.DeepEqual(in.own, wantOwn), "planning rewrote an operation's security requirements in the spec document")
+		}
+	}
 	planned := map[string]GenSecurityScheme{}
 	for _, s := range app.SecurityDefinitions {
 		planned[s.ID] = s
